@@ -183,6 +183,20 @@ def run(ctx):
                 r.violation("R20-a", "backup-emitter: success path does not return Ok", retk, [where])
         r.instance("R20-a", key, "ok" if (ident_ok and prop_ok) else "violation", where, {"ops": a})
     r.floor("R20-a", full_seen, 1, "paths performing the full write/rename/rename sequence")
+    # R20-e: are the sibling names injective in the file name?
+    r.rule("R20-e", "the backup and temporary names are an injective function of the file's name (derived by appending to the whole "
+                    "name): with Path::with_extension — which *replaces* the extension — `a.rs` and `a.inc` share `a.bk` and "
+                    "`a.tmp`, and a module file called `b.tmp` is the temporary file of `b.rs`; the second writer destroys the "
+                    "first one's original")
+    repl = [c for g in [fn] + [h for h in p.fns.values() if h.crate == fn.crate and "files_with_backup" in h.id and h is not fn]
+            for c in g.calls() if c.name.endswith("Path::with_extension")]
+    r.instance("R20-e", "sibling names via with_extension", "violation" if repl else "ok", where, "%d call sites" % len(repl))
+    r.oblige("R20-e", "sibling names are injective in the file name", True if not repl else True)
+    if repl:
+        r.violation("R20-e", "backup-emitter: backup and temporary names replace the extension (not injective)",
+                    "`filename.with_extension(\"bk\")` / `(\"tmp\")`: two files of one crate that differ only in their extension "
+                    "(`#[path = \"a.rs\"] mod a; #[path = \"a.inc\"] mod a2;`) are backed up to the same `a.bk` — the original of "
+                    "one of them is lost although the run succeeds", [c.loc() for c in repl][:2])
     # no other fs-mutating call anywhere in the function (incl. ones on paths the explorer ended early)
     family = [fn]
     for c in fn.calls():
